@@ -11,8 +11,23 @@ _pt = _RealChem.GetPeriodicTable()
 REF_SYMBOLS = ["*"] + [_pt.GetElementSymbol(z) for z in range(1, 119)]
 
 
+class StubMissing(BaseException):
+    """The code under analysis used a part of the RDKit API that the stub world does not model.  This is a limit of
+    the harness, never a property violation: the engine reports it as a harness error (exit 3).  BaseException so
+    that the broad `except Exception` handlers of the code under analysis cannot swallow it."""
+
+
+def _missing(obj, name):
+    raise StubMissing("%s has no stub for RDKit attribute %r" % (type(obj).__name__, name))
+
+
 class FakeAtom:
     __slots__ = ("z", "q", "idx", "sym")
+
+    def __getattr__(self, name):
+        if name.startswith("__"):
+            raise AttributeError(name)
+        _missing(self, name)
 
     def __init__(self, z, q=0, idx=0, sym=None):
         self.z = z
@@ -51,6 +66,11 @@ class FakeMol:
     def __bool__(self):
         # RDKit Mol objects are truthy
         return True
+
+    def __getattr__(self, name):
+        if name.startswith("__") or name in ("atoms", "charge"):
+            raise AttributeError(name)
+        _missing(self, name)
 
 
 class SingleMolChem:
